@@ -66,7 +66,8 @@ class Tok:
 def parse(t):
     """decode a case line into (config, [step dicts]); mirrors coq/c13/Spec.v"""
     k = Tok(t)
-    assert k.get() == 13
+    ver = k.get()
+    assert ver in (13, 14)
     np_ = k.get()
     kinds = [k.get() for _ in range(np_)]
     cfg = {"peers": np_, "id_embeds_key": kinds, "maxProtos": k.get(), "bookPerPeerCap": k.get(), "timeout_ns": k.get()}
@@ -102,7 +103,10 @@ def parse(t):
         return ("other-mutator", p)
 
     steps = []
+    nops = k.get() if ver == 14 else None   # race case: operations without observations, then the final dumps
     while k.i < len(t):
+        if ver == 14 and len(steps) == nops:
+            break
         code = k.get()
         st = {"op": OPN.get(code, code)}
         if code in (1, 2, 3, 5):
@@ -119,6 +123,10 @@ def parse(t):
             st["chunks"] = k.many(chunk)
         elif code == 8:
             st["d"] = k.get()
+        if ver == 14:
+            st.update(ret=0, calls=[], events=[], chans_closed=[], dump=[])
+            steps.append(st)
+            continue
         st["ret"] = k.get()
         st["calls"] = k.many(call)
         st["events"] = k.many(lambda: (k.get(), k.get()))
@@ -129,6 +137,13 @@ def parse(t):
                          "key": k.get(), "pv": k.get(), "av": k.get(), "rec": k.get()})
         st["dump"] = dump
         steps.append(st)
+    if ver == 14:
+        cfg["race_case"] = True
+        final = []
+        for _ in range(np_):
+            final.append({"addrs": k.many(lambda: (k.get(), k.get())), "protos": len(k.many(k.get)),
+                          "key": k.get(), "pv": k.get(), "av": k.get(), "rec": k.get()})
+        steps.append({"op": "final-contents", "ret": 0, "calls": [], "events": [(1, 0)], "chans_closed": [], "dump": final})
     return cfg, steps
 
 
@@ -166,7 +181,7 @@ def key(tag, toks, d):
     # peer / connectedness are in the step) + the operations before it in brief
     try:
         cfg, steps = parse(toks)
-        i = d[1] if len(d) > 1 else 0
+        i = min(d[1] if len(d) > 1 else 0, len(steps) - 1)
         st = steps[i]
         hist = " ".join("%s%s" % (s["op"][0:2], s.get("conn", "")) for s in steps[:i + 1][-6:])
         msg = ""
@@ -205,7 +220,8 @@ if __name__ == "__main__":
              "protobuf messages: fields absent / duplicated across chunks / oversized, 9-10-11 chunks, a chunk over signedIDSize, addresses "
              "with own and foreign /p2p suffixes, bare /p2p, unparsable bytes, own / foreign / garbage keys, signed records valid, of another "
              "peer, wrong peer ID, wrong domain, tampered, wrong type), refused, or left to time out, pushes arrive on live and dead "
-             "connections. After EVERY operation: the peerstore calls made (recording wrapper), events, every wait channel, and the "
+             "connections; plus real-goroutine race cases (a push racing with the removal + Disconnected of that or another connection, "
+             "fired from inside consumeMessage's locked section, judged on the final contents). After EVERY operation: the peerstore calls made (recording wrapper), events, every wait channel, and the "
              "peerstore contents of ALL peers (addresses with TTL class, protocols, key, versions, record). conform_case compares all of "
              "it with the Coq model; monitor_case judges it by the property. Non-trivial = an Identify message was consumed.",
         describe=describe, key=key, what=what, crosscheck=40,
